@@ -270,7 +270,26 @@ def gen_group(rng, pagesize, env, ncases, quick):
             for pid in rng.shuffle(small):
                 g.phases(pid, rng.range(2, 6), 40 * g.pools[pid][3] if quick else 80 * g.pools[pid][3])
         cases.append({"env": env, "name": "gen", "threads": T, "lines": g.finish()})
+    if env is None:
+        cases.append(dict(gen_churn(rng.fork()), env=env))
     return cases
+
+
+def gen_churn(rng, n=1100):
+    """pool churn in ONE process: more short-lived pools than the process has pthread keys (PTHREAD_KEYS_MAX = 1024), next
+    to a long-lived pool with live blocks.  Every pool owns per-thread state (a pthread key); a destroy that does not give
+    everything back makes a later create hand out blocks it does not own ("creating or destroying one pool does not
+    disturb blocks of another")."""
+    L = ["C 7 48 0 0"] + ["A 7 %d" % (k % 3) for k in range(12)]
+    for k in range(n):
+        size = rng.choice([8, 16, 24, 40, 64, 100, 128, 200, 256])
+        align = rng.choice([0, 0, 8, 16, 64])
+        t = rng.below(4)
+        L += ["C 0 %d %d %d" % (size, align, rng.below(2)), "A 0 %d" % t, "A 0 %d" % ((t + 1) % 4), "D 0"]
+        if k % 100 == 99:
+            L += ["A 7 %d" % rng.below(3), "S 7 2"]
+    L += ["A 7 0", "S 7 2", "X"]
+    return {"name": "churn", "lines": L}
 
 
 def split_cases(lines_out, cases):
